@@ -36,6 +36,7 @@ CFG = {
     'C03': dict(
         theorems=['Dlis.C03.frame_data_roundtrip', 'Dlis.C03.window_rows', 'Dlis.C03.element_bits',
                   'Dlis.C03.cast_element_roundtrip', 'Dlis.C03.cast_exact_when_held', 'Dlis.C03.cast_wraps',
+                  'Dlis.C03.cast_int_to_double_exact',
                   'Dlis.Obligations.dtypeCodes_eq', 'Dlis.Obligations.iflrTypes_eq'],
         rule='frames with 1..5 channels, 8 dtypes, scalar or width 1..5, rows 1..17, arbitrary bit patterns (extremes, '
              'NaN payloads, signed zero), byte order / F-order / strided / read-only / view layouts, input chunk sizes '
@@ -76,9 +77,46 @@ def integer_cast_stream(chk, model, bres, tier, prop):
     R = rng(prop, 'integer-casts')
     tmp = tempfile.mkdtemp(prefix='verif_cast_')
     try:
-        pairs = [(a, b) for a in INT_TYPES for b in INT_TYPES if a != b]
+        pairs = [(a, b) for a in INT_TYPES for b in INT_TYPES if a != b] + [(a, b) for a in INT_TYPES for b in ('float32', 'float64')]
         for i, (src, dst) in enumerate(pairs * (1 if tier == 'quick' else 6)):
             lo, hi = np.iinfo(src).min, np.iinfo(src).max
+            if dst.startswith('float'):
+                # integer data declared as float32 / float64: castIntToF32 / castIntToF64 (bit patterns)
+                rows = R.choice([4, 6, 9])
+                cand = [lo, hi, lo + 1, hi - 1, 0, 1, -1, 2**24, 2**24 + 1, 2**24 + 2, 2**24 + 3, -2**24 - 1, 2**31 - 65, 2**25 + 2, 2**25 + 6]
+                vals = [int(v) for v in cand if lo <= v <= hi]
+                R.shuffle(vals)
+                vals = (vals + [R.randint(lo, hi) for _ in range(rows)])[:rows]
+                w = 4 if dst == 'float32' else 8
+                rep = model.ask([f"castf {w} {','.join(str(v) for v in vals)}"])[0]
+                x = np.array(vals, dtype=src)
+                want = [int(b) for b in x.astype(dst).view(f'uint{8 * w}').tolist()]
+                case = {'from': src, 'to': dst, 'values': vals}
+                chk.case('integer-casts', nontrivial_key=('ic', i), sample={'from': src, 'to': dst, 'first_values': vals[:6]})
+                if not rep.startswith('ok ') or rep.split(' ')[1].split(',') != [str(b) for b in want]:
+                    chk.disagree('integer-casts:numpy', case, str(want), rep)
+                    continue
+                fl = np.array(want, dtype=f'uint{8 * w}').view(dst)
+
+                def buildf(cast):
+                    df = DLISFile(set_identifier='CAST')
+                    lf = df.add_logical_file(fh_id='H')
+                    lf.add_origin('O', file_set_number=1, creation_time='2020/01/01 00:00:00')
+                    kw = {'cast_dtype': np.dtype(dst)} if cast else {}
+                    chans = [lf.add_channel('DEPTH', data=np.arange(rows, dtype=np.float64)),
+                             lf.add_channel('V', data=(x if cast else fl), **kw)]
+                    lf.add_frame('F', channels=chans)
+                    path = f'{tmp}/f{int(cast)}.dlis'
+                    df.write(path, output_chunk_size=2**20)
+                    return open(path, 'rb').read()
+                (s0, b0), (s1, b1) = call(buildf, False), call(buildf, True)
+                chk.count(f'integer-casts:float:{s0}:{s1}')
+                if s0 == 'ok' and s1 != 'ok':
+                    chk.fail('integer-casts:refused', case, f'write with cast_dtype={dst} raises {b1}')
+                elif s0 == 'ok' and b0 != b1:
+                    chk.fail('integer-casts:file-differs', case, f'the file written with cast_dtype={dst} differs from the one written '
+                                                                 f'from the nearest {dst} values')
+                continue
             dlo, dhi = np.iinfo(dst).min, np.iinfo(dst).max
             rows = R.choice([4, 6, 9])
             width = R.choice([None, None, 3])
@@ -102,7 +140,7 @@ def integer_cast_stream(chk, model, bres, tier, prop):
                 chk.disagree('integer-casts:numpy', case, f'{want.tolist()} {hexs(want.astype(np.dtype(dst).newbyteorder(">")).tobytes())}', rep)
                 continue
             shape = (rows,) if width is None else (rows, width)
-            how = R.choice(['inline', 'dict'])
+            how = ['inline', 'dict', 'hdf5', 'struct'][i % 4]
 
             def build(cast):
                 df = DLISFile(set_identifier='CAST')
@@ -117,6 +155,11 @@ def integer_cast_stream(chk, model, bres, tier, prop):
                 else:
                     chans = [lf.add_channel('DEPTH'), lf.add_channel('V', **kw)]
                     data = {'DEPTH': d, 'V': arr}
+                    if how in ('hdf5', 'struct'):
+                        # the same data sets as an HDF5 file / a structured array: whatever holds the numbers, a declared
+                        # cast is the conversion numpy makes
+                        from harness import filegen
+                        data = filegen.make_source(how, data, {'tmpdir': tmp, 'h5name': f'src{int(cast)}.h5', 'exact': True})
                 lf.add_frame('F', channels=chans)
                 path = f'{tmp}/{int(cast)}.dlis'
                 df.write(path, output_chunk_size=2**20, **({'data': data} if data is not None else {}))
